@@ -77,7 +77,7 @@ Section SvcProofs.
     - rewrite IH. apply N.eqb_neq in E. tauto.
   Qed.
 
-  Lemma length_remove_in i x m :
+  Lemma length_remove_in i (x : entry sess) m :
     NoDup (keys m) -> lookup i m = Some x -> S (length (remove i m)) = length m.
   Proof.
     induction m as [|[j y] m IH]; cbn; intros Hd Hl; [discriminate|].
@@ -98,24 +98,76 @@ Section SvcProofs.
     destruct (N.eqb k i); [discriminate|]. intros H. f_equal. now apply IH.
   Qed.
 
+  Lemma lookup_filter_keep (P : sid * entry sess -> bool) i m e :
+    lookup i m = Some e -> P (i, e) = true -> NoDup (keys m) -> lookup i (filter P m) = Some e.
+  Proof.
+    induction m as [|[j y] m IH]; cbn; intros Hl HP Hd; [discriminate|].
+    inversion Hd as [|? ? Hn Hd']; subst.
+    destruct (N.eqb j i) eqn:E.
+    - apply N.eqb_eq in E. subst j. inversion Hl; subst y. rewrite HP. cbn. now rewrite N.eqb_refl.
+    - destruct (P (j, y)); cbn; [rewrite E|]; now apply IH.
+  Qed.
+
+  Lemma lookup_filter_drop (P : sid * entry sess -> bool) i m :
+    (forall e, lookup i m = Some e -> P (i, e) = false) -> NoDup (keys m) -> lookup i (filter P m) = None.
+  Proof.
+    induction m as [|[j y] m IH]; cbn; intros HP Hd; [reflexivity|].
+    inversion Hd as [|? ? Hn Hd']; subst.
+    destruct (N.eqb j i) eqn:E.
+    - apply N.eqb_eq in E. subst j. rewrite (HP y eq_refl).
+      apply lookup_none_not_in. intros Hin. apply Hn.
+      unfold SvcModel.keys in *. apply in_map_iff in Hin. destruct Hin as ([k z] & <- & Hin).
+      apply filter_In in Hin. apply in_map_iff. exists (k, z). tauto.
+    - destruct (P (j, y)); cbn; [rewrite E|]; apply IH; auto.
+  Qed.
+
+  Lemma lookup_filter_none (P : sid * entry sess -> bool) i m :
+    lookup i m = None -> lookup i (filter P m) = None.
+  Proof.
+    induction m as [|[j y] m IH]; cbn; [reflexivity|].
+    destruct (N.eqb j i) eqn:E; [discriminate|]. intros H.
+    destruct (P (j, y)); cbn; [rewrite E|]; now apply IH.
+  Qed.
+
+  Lemma nodup_filter (P : sid * entry sess -> bool) m : NoDup (keys m) -> NoDup (keys (filter P m)).
+  Proof.
+    induction m as [|[j y] m IH]; cbn; intros H; [constructor|].
+    inversion H as [|? ? Hn Hd]; subst.
+    destruct (P (j, y)); cbn; [|now apply IH]. constructor; [|now apply IH].
+    intros Hin. apply Hn. unfold SvcModel.keys in *. apply in_map_iff in Hin. destruct Hin as ([k z] & Hk & Hin).
+    apply filter_In in Hin. apply in_map_iff. exists (k, z). tauto.
+  Qed.
+
   (** ** frame: a call that does not name session [j] leaves it alone *)
   Definition mentions (j : sid) (c : call op) : bool :=
     match c with
-    | Create i | Destroy i | Call i _ => N.eqb i j
-    | Find _ => false
-    | CleanupAll => true
+    | Create i | Destroy i | Call i _ | Find i => N.eqb i j
+    | Advance _ => false
+    | CleanupAll | CleanupStale => true
     end.
 
   Theorem frame s c j :
     mentions j c = false -> lookup j (live _ _ (fst (step s c))) = lookup j (live _ _ s).
   Proof.
-    destruct c as [i|i|i|i o|]; cbn [mentions]; intros H; try discriminate;
+    destruct c as [i|i|i|i o| |d|]; cbn [mentions]; intros H; try discriminate;
       try (apply N.eqb_neq in H).
     - cbn. apply lookup_insert_other. congruence.
     - cbn. destruct (lookup i (live _ _ s)); cbn; [apply lookup_remove_other; congruence|reflexivity].
-    - reflexivity.
-    - cbn. destruct (lookup i (live _ _ s)) as [x|]; [|reflexivity].
+    - cbn. destruct (N.eqb i 0); [reflexivity|].
+      destruct (lookup i (live _ _ s)) as [[x st]|]; [|reflexivity].
+      cbn. apply lookup_insert_other. congruence.
+    - cbn. destruct (lookup i (live _ _ s)) as [[x st]|]; [|reflexivity].
       destruct (sstep x o) as [x' b]. cbn. apply lookup_insert_other. congruence.
+    - reflexivity.
+  Qed.
+
+  (** find_session on the session itself only refreshes its activity stamp *)
+  Lemma frame_find s j :
+    option_map fst (lookup j (live _ _ (fst (step s (Find j))))) = option_map fst (lookup j (live _ _ s)).
+  Proof.
+    cbn. destruct (N.eqb j 0); [reflexivity|].
+    destruct (lookup j (live _ _ s)) as [[x st]|] eqn:E; [|cbn; now rewrite E].
+    cbn. now rewrite N.eqb_refl.
   Qed.
 
   (** ** interleaving invariance *)
@@ -124,7 +176,7 @@ Section SvcProofs.
     obs_on op obs i ((c, o) :: t) = obs_on op obs i t.
   Proof.
     intros H. unfold obs_on. cbn [flat_map].
-    destruct c as [j|j|j|j o'|]; try reflexivity.
+    destruct c as [j|j|j|j o'| |d|]; try reflexivity.
     destruct o; try reflexivity.
     destruct (N.eqb j i) eqn:E; [|reflexivity].
     apply N.eqb_eq in E. subst j. exfalso. now apply (H o').
@@ -134,7 +186,7 @@ Section SvcProofs.
     (forall o', c <> Call i o') -> calls_on op i (c :: h) = calls_on op i h.
   Proof.
     intros H. unfold calls_on. cbn [flat_map].
-    destruct c as [j|j|j|j o'|]; try reflexivity.
+    destruct c as [j|j|j|j o'| |d|]; try reflexivity.
     destruct (N.eqb j i) eqn:E; [|reflexivity].
     apply N.eqb_eq in E. subst j. exfalso. now apply (H o').
   Qed.
@@ -147,39 +199,48 @@ Section SvcProofs.
     calls_on op i (Call i o' :: h) = o' :: calls_on op i h.
   Proof. unfold calls_on. cbn [flat_map]. now rewrite N.eqb_refl. Qed.
 
-  Theorem interleave_invariance h : forall s i x,
-    lookup i (live _ _ s) = Some x -> quiet_for op i h = true ->
+  Theorem interleave_invariance h : forall s i x st,
+    lookup i (live _ _ s) = Some (x, st) -> quiet_for op i h = true ->
     obs_on op obs i (snd (run s h)) = snd (solo x (calls_on op i h)) /\
-    lookup i (live _ _ (fst (run s h))) = Some (fst (solo x (calls_on op i h))).
+    option_map fst (lookup i (live _ _ (fst (run s h)))) = Some (fst (solo x (calls_on op i h))).
   Proof.
-    induction h as [|c h IH]; intros s i x Hl Hq; [cbn; auto|].
+    induction h as [|c h IH]; intros s i x st Hl Hq; [cbn; rewrite Hl; auto|].
     cbn [quiet_for forallb] in Hq. apply andb_true_iff in Hq. destruct Hq as [Hc Hq].
     fold (quiet_for op i h) in Hq.
     cbn [SvcModel.run].
     destruct (step s c) as [s1 o] eqn:Es.
     destruct (run s1 h) as [s2 t] eqn:Er.
     assert (Hs1 : s1 = fst (step s c)) by now rewrite Es.
-    assert (Hdec : (exists o', c = Call i o') \/ (forall o', c <> Call i o')).
-    { destruct c as [j|j|j|j o'|]; try (right; intros; discriminate).
-      destruct (N.eq_dec j i) as [->|Hne]; [left; now exists o'|right; intros o'' [= ? ?]; congruence]. }
-    destruct Hdec as [[o' ->]|Hother].
+    assert (Hdec : (exists o', c = Call i o') \/ c = Find i \/ ((forall o', c <> Call i o') /\ c <> Find i)).
+    { destruct c as [j|j|j|j o'| |d|]; try (right; right; split; intros; discriminate).
+      - destruct (N.eq_dec j i) as [->|Hne]; [right; now left|right; right; split; [intros; discriminate|congruence]].
+      - destruct (N.eq_dec j i) as [->|Hne]; [left; now exists o'|right; right; split; [intros o'' [= ? ?]; congruence|discriminate]]. }
+    destruct Hdec as [[o' ->]|[->|[Hother Hnf]]].
     - (* a call on session i itself *)
       clear Hs1. cbn in Es. rewrite Hl in Es.
       destruct (sstep x o') as [x' b] eqn:Ex. inversion Es; subst s1 o; clear Es.
       cbn [fst snd]. rewrite obs_on_cons_self, calls_on_cons_self. cbn [SvcModel.solo]. rewrite Ex.
       match type of Er with SvcModel.run _ _ _ _ _ _ _ _ ?s1 _ = _ =>
-        specialize (IH s1 i x' (lookup_insert_same i x' _) Hq) end.
+        specialize (IH s1 i x' (now _ _ s) (lookup_insert_same i (x', now _ _ s) _) Hq) end.
       rewrite Er in IH.
       destruct (solo x' (calls_on op i h)) as [x2 bs]. cbn [fst snd] in *.
       destruct IH as [IH1 IH2]. split; [now rewrite IH1|exact IH2].
+    - (* find_session on session i: only the stamp moves *)
+      assert (Hl1 : exists st', lookup i (live _ _ s1) = Some (x, st')).
+      { pose proof (frame_find s i) as Hf. rewrite <- Hs1, Hl in Hf. cbn in Hf.
+        destruct (lookup i (live _ _ s1)) as [[y st']|]; [|discriminate]. inversion Hf; subst. now exists st'. }
+      destruct Hl1 as [st' Hl1].
+      specialize (IH s1 i x st' Hl1 Hq). rewrite Er in IH.
+      cbn [fst snd] in *. rewrite obs_on_cons_other, calls_on_cons_other by (intros; discriminate). exact IH.
     - (* anything else: frame *)
       assert (Hm : mentions i c = false).
-      { destruct c as [j|j|j|j o'|]; cbn in *; try reflexivity; try discriminate.
+      { destruct c as [j|j|j|j o'| |d|]; cbn in *; try reflexivity; try discriminate.
         - now apply negb_true_iff in Hc.
         - now apply negb_true_iff in Hc.
+        - apply N.eqb_neq. intros ->. now apply Hnf.
         - apply N.eqb_neq. intros ->. now apply (Hother o'). }
-      assert (Hl1 : lookup i (live _ _ s1) = Some x) by (rewrite Hs1, frame; assumption).
-      specialize (IH s1 i x Hl1 Hq). rewrite Er in IH.
+      assert (Hl1 : lookup i (live _ _ s1) = Some (x, st)) by (rewrite Hs1, frame; assumption).
+      specialize (IH s1 i x st Hl1 Hq). rewrite Er in IH.
       cbn [fst snd] in *. rewrite obs_on_cons_other, calls_on_cons_other by assumption. exact IH.
   Qed.
 
@@ -192,7 +253,7 @@ Section SvcProofs.
     obs_on op obs i (snd (run s2 h2)) = snd (solo (snew (settings _ _ s1)) (calls_on op i h2)).
   Proof.
     intros Hq s1 s2.
-    apply (interleave_invariance h2 s2 i (snew (settings _ _ s1))); [|exact Hq].
+    apply (interleave_invariance h2 s2 i (snew (settings _ _ s1)) (now _ _ s1)); [|exact Hq].
     apply lookup_insert_same.
   Qed.
 
@@ -217,7 +278,7 @@ Section SvcProofs.
     cbn [SvcModel.run].
     destruct (step s c) as [s1 o] eqn:Es. destruct (run s1 h) as [s2 t] eqn:Er.
     assert (Hl1 : lookup i (live _ _ s1) = None /\ rejected_entry i (c, o)).
-    { destruct c as [j|j|j|j o'|]; cbn in Es.
+    { destruct c as [j|j|j|j o'| |d|]; cbn in Es.
       - apply negb_true_iff, N.eqb_neq in Hc. inversion Es; subst; cbn [live rejected_entry]. split; [|exact I].
         rewrite lookup_insert_other by congruence. exact Hl.
       - destruct (lookup j (live _ _ s)) eqn:El; inversion Es; subst; cbn [live rejected_entry].
@@ -225,33 +286,80 @@ Section SvcProofs.
           destruct (N.eq_dec i j) as [->|Hne]; [apply lookup_remove_same|].
           rewrite lookup_remove_other by congruence. exact Hl.
         + split; [exact Hl|reflexivity].
-      - inversion Es; subst; cbn [live rejected_entry]. split; [exact Hl|]. intros ->. rewrite Hl.
-        now rewrite andb_false_r.
-      - destruct (lookup j (live _ _ s)) as [y|] eqn:El.
+      - destruct (N.eqb j 0); [inversion Es; subst; cbn [live rejected_entry]; split; [exact Hl|reflexivity]|].
+        destruct (lookup j (live _ _ s)) as [[y st]|] eqn:El; inversion Es; subst; cbn [live rejected_entry].
+        + split; [|intros ->; congruence].
+          destruct (N.eq_dec i j) as [->|Hne]; [congruence|].
+          rewrite lookup_insert_other by congruence. exact Hl.
+        + split; [exact Hl|reflexivity].
+      - destruct (lookup j (live _ _ s)) as [[y st]|] eqn:El.
         + destruct (sstep y o') as [y' b]. inversion Es; subst; cbn [live rejected_entry].
           split; [|intros ->; congruence].
           destruct (N.eq_dec i j) as [->|Hne]; [congruence|].
           rewrite lookup_insert_other by congruence. exact Hl.
         + inversion Es; subst; cbn [live rejected_entry]. split; [exact Hl|reflexivity].
-      - inversion Es; subst; cbn [live rejected_entry]. auto. }
+      - inversion Es; subst; cbn [live rejected_entry]. auto.
+      - inversion Es; subst; cbn [live rejected_entry]. auto.
+      - inversion Es; subst; cbn [live rejected_entry]. split; [|exact I]. now apply lookup_filter_none. }
     destruct Hl1 as [Hl1 Hre].
-    specialize (IH s1 i Hl1 Hn). rewrite Er in IH. cbn in *. destruct IH as [IH1 IH2].
+    specialize (IH s1 i Hl1 Hn). rewrite Er in IH. cbn [fst snd] in *. destruct IH as [IH1 IH2].
     split; [constructor; assumption|exact IH2].
   Qed.
 
-  (** ** ids of live sessions are pairwise distinct; no session is lost *)
+  (** ** ids of live sessions are pairwise distinct *)
+  Lemma step_nodup s c : NoDup (keys (live _ _ s)) -> NoDup (keys (live _ _ (fst (step s c)))).
+  Proof.
+    intros Hd. destruct c as [j|j|j|j o'| |d|]; unfold SvcModel.step.
+    - cbn [fst live]. now apply nodup_insert.
+    - destruct (lookup j (live _ _ s)); cbn [fst live]; [now apply nodup_remove|exact Hd].
+    - destruct (N.eqb j 0); [exact Hd|].
+      destruct (lookup j (live _ _ s)) as [[y st]|]; cbn [fst live]; [now apply nodup_insert|exact Hd].
+    - destruct (lookup j (live _ _ s)) as [[y st]|]; [|exact Hd].
+      destruct (sstep y o'). cbn [fst live]. now apply nodup_insert.
+    - cbn [fst live keys map]. constructor.
+    - exact Hd.
+    - cbn [fst live]. now apply nodup_filter.
+  Qed.
+
   Theorem ids_distinct h : forall s,
     NoDup (keys (live _ _ s)) -> NoDup (keys (live _ _ (fst (run s h)))).
   Proof.
     induction h as [|c h IH]; intros s Hd; [exact Hd|].
     cbn [SvcModel.run]. destruct (step s c) as [s1 o] eqn:Es. destruct (run s1 h) as [s2 t] eqn:Er.
-    specialize (IH s1). rewrite Er in IH. cbn in *. apply IH.
-    destruct c as [j|j|j|j o'|]; cbn in Es.
-    - inversion Es; subst; cbn [live rejected_entry]. now apply nodup_insert.
-    - destruct (lookup j (live _ _ s)); inversion Es; subst; cbn [live rejected_entry]; [now apply nodup_remove|exact Hd].
-    - inversion Es; subst. exact Hd.
-    - destruct (lookup j (live _ _ s)) as [y|]; [|inversion Es; subst; exact Hd].
-      destruct (sstep y o'). inversion Es; subst; cbn [live rejected_entry]. now apply nodup_insert.
-    - inversion Es; subst; cbn [live rejected_entry]. constructor.
+    specialize (IH s1). rewrite Er in IH. cbn [fst] in *. apply IH.
+    replace s1 with (fst (step s c)) by now rewrite Es. now apply step_nodup.
+  Qed.
+
+  (** ** the stale sweep: a session idle for longer than the life span is gone
+      (and, by [dead_id_rejected], its id is rejected from then on); the others stay *)
+  Theorem stale_swept s i e :
+    NoDup (keys (live _ _ s)) -> lookup i (live _ _ s) = Some e ->
+    lookup i (live _ _ (fst (step s CleanupStale))) = (if stale sess (now _ _ s) e then None else Some e).
+  Proof.
+    intros Hd Hl. cbn. destruct (stale sess (now _ _ s) e) eqn:E.
+    - apply lookup_filter_drop; [|exact Hd]. intros e' He'. rewrite Hl in He'. inversion He'; subst. cbn. now rewrite E.
+    - apply lookup_filter_keep; [exact Hl| |exact Hd]. cbn. now rewrite E.
+  Qed.
+
+  (** any accepted call (or find) on a session makes it survive a sweep for another life span *)
+  Theorem active_session_survives s i o d :
+    NoDup (keys (live _ _ s)) -> lookup i (live _ _ s) <> None -> (d <= life_span)%N ->
+    let s1 := fst (step s (Call i o)) in
+    let s2 := fst (step s1 (Advance d)) in
+    lookup i (live _ _ (fst (step s2 CleanupStale))) <> None.
+  Proof.
+    intros Hd Hl Hdl s1 s2.
+    assert (Hl1 : exists x', lookup i (live _ _ s1) = Some (x', now _ _ s)).
+    { unfold s1. cbn. destruct (lookup i (live _ _ s)) as [[x st]|]; [|congruence].
+      destruct (sstep x o) as [x' b]. cbn. exists x'. now rewrite N.eqb_refl. }
+    destruct Hl1 as [x' Hl1].
+    assert (Hd1 : NoDup (keys (live _ _ s1))) by (apply step_nodup; exact Hd).
+    assert (Hl2 : lookup i (live _ _ s2) = Some (x', now _ _ s)) by (unfold s2; cbn; exact Hl1).
+    assert (Hn2 : now _ _ s2 = (now _ _ s + d)%N).
+    { unfold s2, s1. cbn. destruct (lookup i (live _ _ s)) as [[x st]|]; [|reflexivity]. now destruct (sstep x o). }
+    rewrite (stale_swept s2 i _ (step_nodup s1 (Advance d) Hd1) Hl2).
+    unfold stale. cbn [snd]. rewrite Hn2.
+    replace (N.ltb (now _ _ s) (now _ _ s + d - life_span)) with false; [discriminate|].
+    symmetry. apply N.ltb_ge. unfold life_span in *. lia.
   Qed.
 End SvcProofs.
